@@ -23,6 +23,7 @@ def step (line : String) : String :=
   | "view" :: rest => runView (parseKV rest)
   | "sidx" :: rest => runSidx (parseKV rest)
   | "iseq" :: rest => runIseq (parseKV rest)
+  | "diag" :: rest => runDiag (parseKV rest)
   | _ => "bad-op"
 
 partial def loop (h : IO.FS.Stream) (out : IO.FS.Stream) : IO Unit := do
